@@ -243,6 +243,8 @@ STANDIN_BOUND = {
                "inside a sentence is rewritten as one number; for C16 with one and two zero words in front",
     "variants": "accepted orthographic variants of about 1 800 integers: en hyphen->space and British 'and'; fr hyphen->space and Belgian/Swiss tens "
                 "(septante, huitante/octante, nonante); pt Brazilian teens; de thousands said apart; es unaccented veintidos/veintitres/dieciseis",
+    "decimals": "about 80 integer parts x 58 fraction digit strings (1..6 digits, with leading zeros) per language: spell(n) + separator word + fraction "
+                "(digit by digit in en/de, zero words then a spelled number elsewhere) is rewritten as n<mark>d",
     "pairs": "EXHAUSTIVE over the pair space of the property: every (a, b) in [1,99] x [0,99] and joiner in {space, conjunction} for the seven languages "
              "(19 800 phrases each; French without 'neuf' alone and without the word-ambiguous 'vingt quatre vingt' shapes): the rewriting is 'a [conj] b' or "
              "the one number spelled by exactly those words (conjunction optional, glued forms compared by letters)",
@@ -272,6 +274,23 @@ def standin(pid):
         ran.append({"search": m, "bound": STANDIN_BOUND[m], "cases": w.get("cases"), "found": w.get("kind") == "standin"})
         if w.get("kind") == "standin":
             return w, ran
+    if pid == "C05":
+        seed = int(os.environ.get("VERIF_SEED", "0") or 0)
+        total = 0
+        for code in ["en", "fr", "es", "pt", "it", "de", "nl"]:
+            tsv = os.path.join(VERIF, "build", f"decimals_{code}.tsv")
+            with open(tsv, "w", encoding="utf-8") as f:
+                subprocess.run([sys.executable, os.path.join(VERIF, "tools", "spell.py"), str(seed), "decimals", code], stdout=f, text=True, timeout=300)
+            p = subprocess.run([wbin("standin"), "pairs", tsv], capture_output=True, text=True, timeout=900)
+            try:
+                w = json.loads(p.stdout.strip().split("\n")[-1])
+            except Exception:
+                continue
+            total += w.get("cases", 0) or 0
+            if w.get("kind") == "call":
+                ran.append({"search": "decimals/" + code, "bound": STANDIN_BOUND["decimals"], "cases": total, "found": True})
+                return w, ran
+        ran.append({"search": "decimals", "bound": STANDIN_BOUND["decimals"], "cases": total, "found": False})
     if pid == "C08":
         total = 0
         for code in ["en", "fr", "es", "pt", "it", "de", "nl"]:
